@@ -439,7 +439,7 @@ func TestEnumPrefixes(t *testing.T) {
 	if hx.Thorough() {
 		maxStream = 420
 	}
-	hx.Check(t, "prefixes", hx.N(2, 30), func(t *rapid.T) {
+	hx.Check(t, "prefixes", hx.N(2, 20), func(t *rapid.T) {
 		c := genConfig(t)
 		genHistory(t, c, 6)
 		// every offset is enumerated: keep the frames short
